@@ -2,7 +2,7 @@
     in proofs/LBProofs.v; nothing else lives here. *)
 From EG.lib Require Import Base.
 From EG.model Require Import LB LBCheck.
-From EG.proofs Require Import LBProofs LBCheckProofs.
+From EG.proofs Require Import LBProofs LBCheckProofs LBSound.
 From Coq Require Import Permutation.
 Open Scope Z_scope.
 
@@ -160,6 +160,119 @@ Theorem C04_checker_accepts_balanced : forall n c0 k,
   balanced_counts n (Z.of_nat k) (map (rr_count n c0 (Z.of_nat k)) (zseq 0 (Z.to_nat n))) = true.
 Proof. intros n c0 k Hn. split; [exact (tickets_balanced n c0 k Hn)|apply closed_form_balanced; [exact Hn|apply Nat2Z.is_nonneg]]. Qed.
 Print Assumptions C04_checker_accepts_balanced.
+
+(** ** SOUNDNESS of the decidable property checkers applied to the implementation's observables.
+
+    One segment = the selections made while one list was current ([ws] its weights, [picks] the
+    observed (hash key, chosen index) pairs in order, index -1 = "no server", -2 = panic, [c0] the
+    balancer's counter before the first selection).  If the checker accepts, then:
+    (1) "no server" is reported exactly when the list is empty, otherwise the chosen index designates
+        a member of the list - with the single documented exception of a round-robin selection whose
+        ticket is >= 2^63 (never inside the domain [in_domain c0 k], never for another policy);
+    (2) roundRobin, n servers, k selections in the domain: every server was chosen floor(k/n) times or
+        (only if n does not divide k) floor(k/n)+1 = ceil(k/n) times, and exactly k mod n servers got the
+        larger count;
+    (3) ipHash / headerHash: two selections with equal keys - any key, the empty one included - got
+        the same server;
+    (4) weightedRandom with non-negative weights, one of them positive: the chosen weight is positive. *)
+Theorem C04_checker_sound_segment : forall p ws c0 picks,
+  prop_sel p ws c0 picks = true ->
+  let n := Z.of_nat (List.length ws) in
+  let k := Z.of_nat (List.length picks) in
+  (forall j key idx, nth_error picks j = Some (key, idx) ->
+     (idx = -1 <-> ws = []) /\
+     (ws <> [] ->
+        (0 <= idx < n /\ exists w, nth_error ws (Z.to_nat idx) = Some w) \/
+        (p = RoundRobin /\ idx = -2 /\
+         exists t, nth_error (tickets64 c0 (List.length picks)) j = Some t /\ two63 <= t))) /\
+  (p <> RoundRobin \/ in_domain c0 k = true ->
+   forall key idx, In (key, idx) picks -> ws <> [] ->
+     0 <= idx < n /\ exists w, nth_error ws (Z.to_nat idx) = Some w) /\
+  (p = RoundRobin -> ws <> [] -> in_domain c0 k = true ->
+     (forall i, 0 <= i < n ->
+        count i (map snd picks) = k / n \/ (k mod n <> 0 /\ count i (map snd picks) = k / n + 1)) /\
+     Z.of_nat (List.length (filter (fun i => count i (map snd picks) =? k / n + 1) (zseq 0 (Z.to_nat n)))) = k mod n) /\
+  (p = IPHash \/ p = HeaderHash ->
+     forall j1 j2 key i1 i2, nth_error picks j1 = Some (key, i1) -> nth_error picks j2 = Some (key, i2) -> i1 = i2) /\
+  (p = WeightedRandom -> Forall (fun w => 0 <= w) ws -> Exists (fun w => 0 < w) ws ->
+     forall key idx, In (key, idx) picks -> 0 < nthZ ws idx).
+Proof. exact prop_sel_sound. Qed.
+Print Assumptions C04_checker_sound_segment.
+
+(** A whole observed history (groups pool, watch, and - per segment - lb and retry): requests
+    [OReq] interleaved with any number of list replacements [OUse] (discovery reports), any length
+    below 2^63, any policy.  [req_view] pairs every observed selection with the list current at
+    that selection (declared by the last report before it: tagged instances, else static list;
+    initially the static list); [segments] are the maximal runs of selections between replacements.
+    If the checker accepts: every forwarded request went to a member of the list current at that
+    selection; a request was failed for lack of a server ((503, internalError, no target)) exactly
+    when that list was empty; nothing else (panic, other status) was observed while the list was
+    non-empty; and every segment satisfies clauses (1)-(4) above with counter start 0, inside the
+    round-robin domain. *)
+Theorem C04_checker_sound_history : forall p static tags ops trs,
+  Z.of_nat (List.length ops) <= two63 ->
+  prop_pool p static tags ops trs = true ->
+  (forall d key x, In (d, key, x) (req_view static tags static ops trs) ->
+     (x = (503, "internalError"%string, ""%string) <-> d = []) /\
+     (d <> [] -> exists s, In s d /\ x = (200, ""%string, s_url s))) /\
+  (forall d picks, In (d, picks) (segments static tags static [] ops trs) -> seg_clauses p (weights d) 0 picks) /\
+  (forall d picks, In (d, picks) (segments static tags static [] ops trs) ->
+     in_domain 0 (Z.of_nat (List.length picks)) = true).
+Proof. exact prop_pool_sound. Qed.
+Print Assumptions C04_checker_sound_history.
+
+(** Concurrent groups - what exactly is claimed.
+    rrc: g goroutines made k = g * per selections on ONE round-robin balancer of n servers; the
+    observable is the vector [cs] of per-server totals after ALL selections returned (no order, no
+    intermediate moment, no per-goroutine claim).  Accepted => one total per server, each floor(k/n)
+    or (n not dividing k) floor(k/n)+1, exactly k mod n of them the larger, and they add up to k
+    (the checker also requires that no selection returned nil or panicked).
+    swap: selections concurrent with list replacements; every selection is stamped with lo = the
+    last installation completed before the call began and hi = the last installation started before
+    it returned; the observations are aggregated as (lo, hi, chosen URL or "" for no server, count).
+    Accepted => for every observed combination there is an installation j with lo <= j <= hi whose
+    list contains the chosen server ("the old or the new list"), and "no server" was returned only if
+    such a list is empty.  No balance claim is made across replacements. *)
+Theorem C04_checker_sound_concurrent :
+  (forall n k cs, 0 < n -> balanced_counts n k cs = true ->
+     Z.of_nat (List.length cs) = n /\
+     (forall c, In c cs -> c = k / n \/ (k mod n <> 0 /\ c = k / n + 1)) /\
+     Z.of_nat (List.length (filter (fun c => c =? k / n + 1) cs)) = k mod n /\
+     zsum cs = k) /\
+  (forall urls hist, hist_ok urls hist = true ->
+     forall lo hi u n, In (lo, hi, u, n) hist -> 0 < n ->
+     exists j l, nth_error urls (Z.to_nat j) = Some l /\ lo <= j <= hi /\ 0 <= j /\
+                 (u = ""%string -> l = []) /\ (u <> ""%string -> In u l)).
+Proof. split; [exact balanced_counts_sound|exact hist_ok_sound]. Qed.
+Print Assumptions C04_checker_sound_concurrent.
+
+(** the comparison of the pool's observed list with the list the reports of discovery imply
+    (groups pool, watch, retry): accepted => equal as multisets of (URL, weight) *)
+Theorem C04_checker_sound_list : forall l1 l2, perm_eqb l1 l2 = true -> forall x, occ x l1 = occ x l2.
+Proof. exact perm_eqb_sound. Qed.
+Print Assumptions C04_checker_sound_list.
+
+(** non-vacuity of the soundness theorems: an accepted history with a replacement in the middle,
+    round robin; an accepted ipHash segment with the EMPTY key; and histories the checker rejects
+    (imbalance, a target outside the current list, no-server although the list is not empty,
+    equal keys to different servers, a zero-weight choice) - the checker is not trivially true *)
+Example C04_checker_nonvacuous :
+  let a := {| s_url := "a"; s_w := 0 |} in let b := {| s_url := "b"; s_w := 0 |} in
+  let i1 := {| i_url := "x"; i_tags := ["t"%string]; i_w := 0 |} in
+  let rq := fun st rs tg => OReq "" "" "" 0 st rs tg in
+  let h := [rq 200 "" "a"; rq 200 "" "b"; rq 200 "" "a"; OUse [i1] [("x"%string, 0)]; rq 200 "" "x"; OUse [] []; rq 200 "" "a"]%string in
+  prop_pool RoundRobin [a; b] ["t"%string] h (obs_triples h) = true /\
+  List.length (segments [a; b] ["t"%string] [a; b] [] h (obs_triples h)) = 3%nat /\
+  prop_sel IPHash [0; 0; 0] 0 [(""%string, 2); ("k"%string, 0); (""%string, 2)] = true /\
+  prop_sel RoundRobin [0; 0] 0 [(""%string, 0); (""%string, 0); (""%string, 0)] = false /\
+  prop_pool RoundRobin [a; b] ["t"%string] [OUse [i1] []; rq 200 "" "a"]%string [(200, "", "a")]%string = false /\
+  prop_pool RoundRobin [a; b] [] [rq 503 "internalError" ""]%string [(503, "internalError", "")]%string = false /\
+  prop_sel HeaderHash [0; 0] 0 [(""%string, 0); (""%string, 1)] = false /\
+  prop_sel WeightedRandom [0; 3] 0 [(""%string, 0)] = false /\
+  balanced_counts 3 8 [3; 3; 2] = true /\ balanced_counts 3 8 [4; 2; 2] = false /\
+  hist_ok [["u"]; ["v"]]%string [(0, 1, "v", 5); (1, 1, "v", 2)]%string = true /\
+  hist_ok [["u"]; ["v"]]%string [(0, 0, "v", 1)]%string = false.
+Proof. vm_compute. repeat split; reflexivity. Qed.
 
 (** non-vacuity: concrete non-trivial instances *)
 Example C04_nonvacuous_rr :
